@@ -1088,7 +1088,7 @@ def tab4(units, R):
             found[text] = (nn, lin_at(cs['adv'], hc), kind, b, lin_at(cs['req'], hc) if cs['has_req'] else 'none')
             continue
         p = cmp_parts(b.expr)
-        if p is None or p[1] != '==' or p[2] != 0 or p[0].get('k') != 'call' or callee_name(p[0]) not in ('strncmp', 'memcmp'):
+        if p is None or p[1] not in ('==', '!=') or p[2] != 0 or p[0].get('k') != 'call' or callee_name(p[0]) not in ('strncmp', 'memcmp'):
             continue
         call = p[0]
         lits = [strip_casts(a) for a in call['args'] if strip_casts(a).get('k') == 'str']
@@ -1096,7 +1096,8 @@ def tab4(units, R):
         if not lits or nn is None:
             continue
         text = bytes(lits[0]['bytes']).decode('latin1')
-        t = [y for (y, l) in cfg.succ[b.id] if l and l[0] == 'T']
+        # the edge on which the bytes compared equal (strncmp(..) == 0 taken, or strncmp(..) != 0 not taken)
+        t = [y for (y, l) in cfg.succ[b.id] if l and l[0] == ('T' if p[1] == '==' else 'F')]
         reg = set()
         for y in t:
             reg |= cfg.reachable(y) | {y}
